@@ -2,6 +2,7 @@
 import io
 from util import hb, outcome
 import isoutil as iu
+from props.framing import in_stream
 from props.framing import B, BLK
 
 ID = 'C17'
@@ -81,7 +82,7 @@ def impl(case):
     f = the_file(case)
 
     def run():
-        i = mciipm.ipm_info(io.BytesIO(f))
+        i = mciipm.ipm_info(in_stream(f))          # io.BytesIO or a buffered forward-only stream, by content
         if not i['isValidIPM']:
             return 'INVALID reason=%s' % ('yes' if i.get('reason') else 'none')
         return 'VALID %s %s' % ('1' if i['isBlocked'] else '0', i['encoding'])
